@@ -27,7 +27,7 @@ ASSUMPTIONS = ['numerically solved dispersion/trace orders are compared to 1e-6 
                'segments whose pixels are collinear (rank-deficient tip/tilt fit) are skipped']
 PLAN = {'quick': {'gen': 8}, 'thorough': {'gen': 16, 'tests': 1}}
 REQUIRED_BUCKETS = ['tilt:subpixel', 'tilt:pixels', 'tilt:beyond-output', 'du:aniso', 'du:iso', 'os>1', 'segmented',
-                    'rep:ramp', 'rep:plane', 'rep:wavefront', 'rep:fit', 'multi-tilt', 'scan', 'disp:propagated', 'disp:order1', 'disp:order>1',
+                    'rep:ramp', 'rep:plane', 'rep:wavefront', 'rep:fit', 'multi-tilt', 'scan', 'disp:propagated', 'sequence', 'disp:order1', 'disp:order>1',
                     'refit-after-update', 'refit-segmented']
 REQUIRED_ANCHORS = ['anchor:Tilt.shift', 'anchor:Field.shift', 'anchor:fit_tilt', 'anchor:ptt_vector',
                     'anchor:DispersiveTilt.shift', 'probe:propagate_dft']
@@ -504,6 +504,39 @@ def workload(ctx, lentil):
             ctx.close('shift:signs', xy, np.array([exp[1], -exp[0]]), 1e-12, 'shift|xy' + ('|aniso' if ps[0] != ps[1] else ''),
                       'Field.shift(indexing="xy") is not (col displacement, -row displacement)', desc,
                       scale=max(float(np.max(np.abs(exp))), 1e-12))
+
+    # ---- one dispersive / angular element evaluated for a sequence of wavelengths and distances (broadband loop) ------------
+    for i in range(n):
+        trace, disp, to, do, lam0 = rand_dispersive(rng)
+        g = lentil.DispersiveTilt(trace=trace, dispersion=disp)
+        tx, ty = float(rng.normal() * 1e-5), float(rng.normal() * 1e-5)
+        t = lentil.Tilt(x=tx, y=ty)
+        wls = [float(lam0 + rng.uniform(-2e-7, 2e-7)) for _ in range(4)]
+        zs = [float(rng.uniform(0.5, 20)) for _ in range(4)]
+        ctx.case({'element-sequence': {'trace': trace, 'dispersion': disp}, 'wls': wls}, ['sequence'])
+        first = None
+        for wl, zz in zip(wls + wls[:1], zs + zs[:1]):
+            try:
+                x, y = g.shift(wavelength=wl)
+                x, y = float(np.ravel(x)[0]), float(np.ravel(y)[0])
+                tol = 1e-12 if (to == 1 and do == 1) else 1e-6
+                ctx.close('dispersive:trace', np.array([y]), np.array([np.polyval(trace, x)]), tol, 'dispersive|on-trace|sequence',
+                          'dispersive displacement does not lie on the trace polynomial (element re-used for another wavelength)',
+                          {'wl': wl}, scale=max(abs(y), abs(x), 1e-9))
+                ctx.close('dispersive:arclength', np.array([np.polyval(disp, arclen(trace, x))]), np.array([wl]), tol,
+                          'dispersive|arclength|sequence', 'arc length does not map to the wavelength (element re-used)', {'wl': wl}, scale=wl)
+                xt, yt = t.shift(xs=0.0, ys=0.0, z=zz, wavelength=wl)
+                ctx.close('shift:signs', np.array([float(xt), float(yt)]), np.array([-zz * ty, -zz * tx]), 1e-13, 'tilt|shift|sequence',
+                          'Tilt.shift is not (-z*angle_y, -z*angle_x) (element re-used for another distance)', {'z': zz},
+                          scale=max(abs(zz * tx), abs(zz * ty), 1e-12))
+                if first is None:
+                    first = (x, y)
+            except Exception as e:
+                ctx.check(False, 'dispersive:trace', f'dispersive|sequence|raises={type(e).__name__}', str(e), {'wl': wl})
+        if first is not None:
+            ctx.close('dispersive:trace', np.array([x, y]), np.array(first), 1e-9, 'dispersive|sequence|repeat',
+                      'the same wavelength gives another displacement after the element was used for other wavelengths', {},
+                      scale=max(abs(first[0]), abs(first[1]), 1e-9))
 
     # ---- (iv) dispersive elements --------------------------------------------------------------
     for i in range(n * 2):
